@@ -93,6 +93,7 @@ def force_trace(sc):
         state = State(instance_variables=dict(temp=float), default_values=dict(temp=0.0))
         grid = Grid(os.path.join(work, "f_00.nc"), subgrid=tuple(sc["subgrid"]) if sc["subgrid"] else None)
         ev.append(dict(ev="setup", rev=sc["rev"], fm=sc["fm"], layout=layout_of(sc), nsteps=int(timer.Nsteps), Q=QH,
+                       nexp=int(abs(sc["stop"] - sc["start"]) // sc["dt"]), late=int(sc.get("late", 0)),
                        hasscal=sc["hasscal"],
                        grid=dict(i0=int(grid.i0), i1=int(grid.i1), j0=int(grid.j0), j1=int(grid.j1), M=sc["M"], zr=levels(sc))))
         X = np.array(sc["xq"], float) / QH
@@ -140,6 +141,7 @@ def force_trace(sc):
         shutil.rmtree(work, ignore_errors=True)
     if not ev or ev[0].get("ev") != "setup":
         ev.insert(0, dict(ev="setup", rev=sc["rev"], fm=sc["fm"], layout=layout_of(sc), nsteps=0, Q=QH, hasscal=sc["hasscal"],
+                          nexp=int(abs(sc["stop"] - sc["start"]) // sc["dt"]), late=int(sc.get("late", 0)),
                           grid=dict(i0=1, i1=2, j0=1, j1=2, M=sc["M"], zr=levels(sc))))
     return ev
 
